@@ -289,7 +289,7 @@ def reader_summaries(mir, st_, eofd):
     return S
 
 
-def run_reader(mir, s, pre, max_calls, budget=None, on_path=None):
+def run_reader(mir, s, pre, max_calls, budget=None, on_path=None, via_new=None):
     """Call read_record repeatedly on the abstract stream; returns (executor, list of (pc, outputs, final state))
     where outputs = list of ('rec', [fragment indexes]) | ('err',) | ('eof',)."""
     fn = mir.method('LogReader', 'read_record')
@@ -321,7 +321,24 @@ def run_reader(mir, s, pre, max_calls, budget=None, on_path=None):
     try:
         ex.solver.add(*pre)
         if str(ex.solver.check()) != 'sat': raise Inconclusive('stream precondition unsatisfiable (vacuous)')
-        again(env, list(pre), [], max_calls)
+        if via_new is None: again(env, list(pre), [], max_calls)
+        else:
+            # the reader object is produced by LogReader::new while the file has `via_new` bytes; the stream `s` is what the file
+            # holds when the records are read (the writer kept appending in between)
+            newfn = mir.method('LogReader', 'new')
+            P = S['$patterns']; at_open = [True]
+            P[r'<Arc<dyn FileSystem> as Deref>::deref'] = lib.ident
+            P[r'<dyn FileSystem as FileSystem>::open_file'] = lambda se, env, pc, fs, path: lib.one(env, Enum('Ok', ('file',)))
+            P[r'<P as AsRef<Path>>::as_ref'] = lib.ident; P[r'<.* as AsRef<Path>>::as_ref'] = lib.ident; P[r'Path::to_path_buf'] = lib.ident
+            len_late = P[r'<dyn ReadonlyRandomAccessFile as ReadonlyRandomAccessFile>::len']
+            P[r'<dyn ReadonlyRandomAccessFile as ReadonlyRandomAccessFile>::len'] = lambda se, env, pc, f: (lib.one(env, Enum('Ok', (via_new,))) if at_open[0] else len_late(se, env, pc, f))
+            P[r'<Box<dyn ReadonlyRandomAccessFile> as Deref>::deref'] = lib.ident
+            def made(ret, env2, pc2):
+                at_open[0] = False
+                if not (isinstance(ret, Enum) and ret.tag == 'Ok'): raise Inconclusive('LogReader::new failed: %r' % (ret,))
+                e = dict(env2); e['$reader'] = ret.fields[0]
+                again(e, pc2, [], max_calls)
+            ex.run_fn(newfn, ['fs', {'path': 'log'}, bv(0)], env, list(pre), made)
     finally:
         ex.solver.pop()
     ex.paths = len(finished)
@@ -619,3 +636,38 @@ def o12_8_confirm(v, out):
     append returned Ok, in order."""
     if out.get('_rc') != 0: return (True, 'native run failed / panicked: %s' % out.get('_stderr', '')[-300:])
     return (out.get('lost', '0') != '0', 'native: %s acknowledged log records are not read back (first: %s)' % (out.get('lost'), out.get('first_lost')))
+
+
+# ---------------------------------------------------------------- O12.9 a reader opened before the last appends
+def o12_9_reader_opened_early(mir, tier):
+    """LogReader::new is executed while the file holds L0 bytes (free); by the time records are read the file holds a complete
+    stream of 1..2 (3) fragments (the writer - the same or a reopened one - kept appending).  Reference: exactly the complete
+    records of the file as it is NOW are returned, then end-of-file: how long the file was when the reader was created does not
+    matter."""
+    M = 2 if tier == 'quick' else 3
+    res = Result('O12.9 LogReader created before the last appends', ['LogReader::new', 'LogReader::read_record', 'LogReader::read_physical_record (inlined)'],
+                 'file length when the reader is created free (0..current length); current contents: every writer-producible stream of 1..%d fragments with symbolic payload lengths' % M)
+    t0 = time.time()
+    for m in range(1, M + 1):
+        for types, groups, aband in type_patterns(m):
+            if aband is not None: continue
+            for trs in trailer_splits(types):
+                s = Stream(m, types, trailers=trs)
+                s.cut = s.end
+                L0 = BitVec('length_when_reader_was_created', 64)
+                pre = s.pre + s.ok + [ULE(L0, s.end)]
+                exp = [('rec', g) for g in groups] + [('eof',)]
+                recs = [(g, 'complete') for g in groups]
+                ex, fin = run_reader(mir, s, pre, len(groups) + 1, via_new=L0, on_path=_checker(res, lambda exp=exp: [(BoolVal(True), exp)],
+                                     'reader created before the last appends: ', lambda mdl, s=s, recs=recs, L0=L0: ['log_reader_opened_early', str(mval(mdl, L0))] + _argv_scenario(mdl, s, types, recs)[1:]))
+                res.absorb(ex); res.cases['m=%d' % m] = res.cases.get('m=%d' % m, 0) + len(fin)
+    res.wall_s = time.time() - t0
+    if res.violations: res.status = 'violation'
+    return res
+
+
+def o12_9_confirm(v, out):
+    """Native (disk-backed temporary file system: one cursor per handle): records are appended, a reader is opened, more records are
+    appended by the same / a reopened writer, then the reader reads to the end."""
+    if out.get('_rc') != 0: return (True, 'native run failed / panicked: %s' % out.get('_stderr', '')[-300:])
+    return (out.get('returned') != out.get('expected'), 'native: reader opened after %s of %s appends returned records %s, expected %s' % (out.get('opened_after'), out.get('appends'), out.get('returned'), out.get('expected')))
